@@ -12,10 +12,11 @@
    [resumes_like_go_on] is the same against the run that wrote the state and went on (they coincide when
    writing the state does not change the object), [saves_what_it_loaded]: writing the state right after
    loading it reproduces it. *)
-From Coq Require Import ZArith QArith List Bool Reals.
+From Coq Require Import ZArith QArith List Bool Reals Lia.
 From CV Require Import Base.Num Base.RNum C03.ResumeModel C03.ResumeProofs C06.RestraintModel C03.ObjectsModel
   C03.RestraintResume C03.RestraintMachine C03.ObjectsProofs C03.SystemProofs C03.Witness
-  C03.AbfObject C03.AbfResume C03.AbfSystem C03.MetaObject C03.MetaResume.
+  C03.AbfObject C03.AbfResume C03.AbfSystem C03.MetaObject C03.MetaResume C03.FormatModel C03.FormatProofs.
+From CV Require C05.MetaModel C04.ABFModel.
 Import ListNotations.
 Local Open Scope Z_scope.
 
@@ -153,6 +154,42 @@ Proof.
 Qed.
 Print Assumptions C03_metadynamics_resumes_partial.
 
+(* Metadynamics, FULL statement, whenever no hill is pending when the state is written: without grids, or with
+   gridsUpdateFrequency dividing newHillFrequency (the default: they are equal).  The resumed run has the energy and
+   forces of the UNINTERRUPTED run at the re-executed step and at every later step, and the same final grids (bin by
+   bin), geometry and explicit hills; keepHills and well-tempered included; meta_ok2 = meta_ok + that condition. *)
+Theorem C03_metadynamics_resumes :
+  resumes_like_uninterrupted (meta_machine Rops) meta_ok2 eq eq meta_saved_eq.
+Proof. exact meta_resumes_uninterrupted. Qed.
+Print Assumptions C03_metadynamics_resumes.
+
+(* Both state formats carry the same fields.  A state is a list of fields (keyword, values); the text format
+   writes `keyword values newline`, the binary format `keyword count values`; decoding what either encoder wrote
+   returns the field list, for every field list; the restraint's six optional keywords are recovered from it; hence a
+   restraint read from a text state and from a binary state is the same object, namely the one the resume theorems
+   are about (m_load (m_save s)). *)
+Theorem C03_formats_equivalent :
+  forall (T : Type),
+    (forall (f : format) (fs : list (@field T)), decode f (encode f fs) = fs) /\
+    (forall (O : NumOps T) (f : format) c s, r_read O f c (r_write O f c s) = m_load (restraint_machine O) c (m_save (restraint_machine O) c s)) /\
+    (forall (O : NumOps T) c s, r_read O Text c (r_write O Text c s) = r_read O Binary c (r_write O Binary c s)).
+Proof.
+  intros T. split; [exact (@decode_encode T)|]. split.
+  - intros O f c s. exact (r_read_write O f c s).
+  - intros O c s. exact (r_formats_agree O c s).
+Qed.
+Print Assumptions C03_formats_equivalent.
+
+(* With same-step total forces the total force of the re-executed step is reported again by the resumed run
+   (with lagged total forces a restarted engine does not have it: it is excluded from abf_out_eq0). *)
+Theorem C03_abf_total_force_at_restart_step :
+  forall (T : Type) (O : NumOps T) c s i, abf_ok c -> abf_inv O c s -> ABFModel.c_same_step c = true ->
+    let so := ABFModel.abf_step O c s (no_boundary i) in
+    let so' := ABFModel.abf_step O c (abf_load O c (ABFModel.s_cnt (fst so), ABFModel.s_sum (fst so))) (no_boundary i) in
+    ABFModel.o_tf (snd so) = ABFModel.o_tf (snd so').
+Proof. intros T O c s i. exact (reexec_total_force_same_step O c s i). Qed.
+Print Assumptions C03_abf_total_force_at_restart_step.
+
 (* ---- non-vacuity ---- *)
 Example C03_ok_satisfiable :
   exists c : @rcfg Q, r_ok c /\ c_chg_centers c = true /\ c_acc_work c = true.
@@ -175,6 +212,13 @@ Qed.
 
 (* a moving restraint with accumulated work, resumed after its third step: same final state as the run that
    went on (computed: the statement of C03_restraint_resumes on one concrete history) *)
+Example C03_meta_ok2_satisfiable :
+  exists c, meta_ok2 c /\ MetaModel.c_use_grids c = true /\ MetaModel.c_keep c = true /\ MetaModel.c_wt c = true.
+Proof.
+  exists (@MetaModel.mkCfg R [] [] 1%R 2%R 2 1 true true true 300%R 1%R false).
+  unfold meta_ok2, meta_ok. cbn. repeat split; auto; try lia. exists 2. reflexivity.
+Qed.
+
 Example C03_restraint_example :
   let c := @mkCfg Q Harmonic [mkVar 1%Q false 1%Q 0%Q] [0%Q] true [2%Q] 1%Q false false 0%Q 0%Q 1%Q [] 4 0 0 true
                   false false [] [] 1%Q 1%Q 0 in
